@@ -4,6 +4,7 @@
   whose layers list modules by name.
 -/
 import Bridge.LayerAbs
+import Bridge.LayerKept
 import PtaProofs.Lemmas.LayerSem
 namespace Pta
 open PtaSpec
@@ -40,6 +41,53 @@ theorem assertAppliesLayer_compile (mt : Str → Str → Bool) (g : PGraph Str) 
         droppedSubjects_of_dedup_eq _ hdd', convertAliases, configMissing, RuleConfig.behavior,
         Behavior.inconsistent, Behavior.explReq, Behavior.explForb, Behavior.otherReq, Behavior.otherForb,
         hs1, hdd', behL]
+
+/-- the subject filters the matcher gets: the `any layer` aliases drop listed modules that are sub modules of other
+    listed modules (`_convert_aliases`) -/
+def subjF (larch : LArch) (r : LRuleSpec) : List Filter :=
+  if r.anything = true then dedupSubjects (larch.getD r.subject) else larch.getD r.subject
+
+def objF (larch : LArch) (r : LRuleSpec) : List Filter :=
+  if r.anything = true then dedupSubjects (larch.getD r.subject) else r.objects.flatMap larch.getD
+
+/-- the shape of `assert_applies` without the assumption that the alias conversion drops nothing: the dropped subjects
+    must exist (repair of F-C13b), the retained ones are queried -/
+theorem assertAppliesLayer_compile' (mt : Str → Str → Bool) (g : PGraph Str) (larch : LArch) (r : LRuleSpec)
+    (hs : subjF larch r ≠ []) (ho : r.anything = true ∨ r.objects.flatMap larch.getD ≠ [])
+    (hany : r.anything = true → r.verb = .shouldNot)
+    (hda : r.anything = true → droppedAbsentIn g (larch.getD r.subject) = false) :
+    assertAppliesLayer mt (compileLayerRule larch r) g =
+      matchLayerRule mt g larch (behL r) r.importDir (subjF larch r) (objF larch r) := by
+  obtain ⟨verb, dir, exc, subject, objects, anything⟩ := r
+  simp only [subjF, objF] at hs ho hany hda ⊢
+  cases anything
+  · simp only [Bool.false_eq_true, if_false] at hs ⊢
+    have hs1 : (larch.getD subject).isEmpty = false := by
+      cases h : larch.getD subject
+      · exact absurd h hs
+      · rfl
+    have ho' : objects.flatMap larch.getD ≠ [] := by simpa using ho
+    have ho1 : (objects.flatMap larch.getD).isEmpty = false := by
+      cases h : objects.flatMap larch.getD
+      · exact absurd h ho'
+      · rfl
+    cases verb <;> cases exc <;>
+      simp [assertAppliesLayer, compileLayerRule, anythingMisused, droppedAbsent, convertAliases, configMissing, RuleConfig.behavior,
+        Behavior.inconsistent, Behavior.explReq, Behavior.explForb, Behavior.otherReq, Behavior.otherForb,
+        hs1, ho1, behL]
+  · have hv : verb = .shouldNot := hany rfl
+    subst hv
+    simp only [if_true] at hs ⊢
+    have hs1 : (dedupSubjects (larch.getD subject)).isEmpty = false := by
+      cases h : dedupSubjects (larch.getD subject)
+      · exact absurd h hs
+      · rfl
+    have hda' := hda rfl
+    unfold droppedAbsentIn at hda'
+    simp [assertAppliesLayer, compileLayerRule, anythingMisused, droppedAbsent, hda',
+        convertAliases, configMissing, RuleConfig.behavior,
+        Behavior.inconsistent, Behavior.explReq, Behavior.explForb, Behavior.otherReq, Behavior.otherForb,
+        hs1, behL]
 
 /-! ### `Layers.get` -/
 
@@ -98,23 +146,82 @@ theorem mem_of_mem_get (ls : Layers) (n : List Char) (x : Name) (h : x ∈ ls.ge
     · simp only [hl, if_true] at h
       exact ⟨l, by simp, by simpa using hl, h⟩
 
+/-- dropping layers with other names does not change a lookup -/
+theorem get_filter_mentioned (ls : Layers) (p : List Char × List Name → Bool) (n : List Char)
+    (hp : ∀ l : List Char × List Name, l.1 = n → p l = true) : Layers.get (ls.filter p) n = Layers.get ls n := by
+  induction ls with
+  | nil => rfl
+  | cons l ls ih =>
+    rw [layers_get_cons]
+    cases hl : l.1 == n
+    · simp only [Bool.false_eq_true, if_false]
+      rw [List.filter_cons]
+      split
+      · rw [layers_get_cons, hl]; simpa using ih
+      · exact ih
+    · rw [List.filter_cons, hp l (by simpa using hl), if_pos rfl, layers_get_cons, hl]
+      simp
+
 /-! ### the domain of the oracle, unpacked -/
 
+/-- what the core lemma needs of the layers the rule works with (`layerDomainK`, unpacked): only the layers the rule
+    mentions need to list anything; inside one layer listed modules may be related -/
 structure LDom (a : Arch) (ls : Layers) (r : LRuleSpec) : Prop where
+  wf : ∀ l ∈ ls, ∀ x ∈ l.2, nameWF x = true
+  nodesS : ∀ x ∈ ls.get r.subject, x ∈ a.nodes
+  nodesO : r.anything = false → ∀ on ∈ r.objects, ∀ x ∈ ls.get on, x ∈ a.nodes
+  unrel : UnrelMap ls
+  nodup : nodupC (ls.map (·.1)) = true
+  subj : ls.any (·.1 == r.subject) = true
+  subjNe : ls.get r.subject ≠ []
+  objNe : r.anything = false → r.objects ≠ []
+  obj : r.anything = false → ∀ on ∈ r.objects, ls.any (·.1 == on) = true ∧ on ≠ r.subject ∧ ls.get on ≠ []
+
+theorem ldom_of_layerDomainK (a : Arch) (ls : Layers) (r : LRuleSpec) (h : layerDomainK a ls r = true) : LDom a ls r := by
+  unfold layerDomainK at h
+  simp only [Bool.and_eq_true, List.all_eq_true, Bool.not_eq_true', List.contains_iff_mem, Bool.or_eq_true,
+    bne_iff_ne, ne_eq] at h
+  obtain ⟨⟨⟨⟨⟨⟨h2, h3⟩, h4⟩, h5⟩, h5'⟩, h5''⟩, h6⟩ := h
+  have hobj : r.anything = false → ∀ on ∈ r.objects, ((ls.any (·.1 == on) = true ∧ on ≠ r.subject) ∧
+      (Layers.get ls on).isEmpty = false) ∧ ∀ x ∈ Layers.get ls on, x ∈ a.nodes := by
+    intro hany on hon
+    rcases h6 with h6 | h6
+    · rw [hany] at h6; cases h6
+    · exact h6.2 on hon
+  refine ⟨?_, h5'', ?_, unrelMap_of_cross ls h3, h4, h5, ?_, ?_, ?_⟩
+  · intro l hl x hx
+    exact h2 x (List.mem_flatMap.2 ⟨l, hl, hx⟩)
+  · intro hany on hon
+    exact (hobj hany on hon).2
+  · intro h0
+    rw [h0] at h5'; cases h5'
+  · intro hany h0
+    rcases h6 with h6 | h6
+    · rw [hany] at h6; cases h6
+    · rw [h0] at h6; simp at h6
+  · intro hany on hon
+    obtain ⟨⟨⟨h7, h8⟩, h9⟩, _⟩ := hobj hany on hon
+    refine ⟨h7, h8, ?_⟩
+    intro h0
+    rw [h0] at h9; cases h9
+
+/-- the relaxed domain, unpacked -/
+structure LDom' (a : Arch) (ls : Layers) (r : LRuleSpec) : Prop where
   ne : ∀ l ∈ ls, l.2 ≠ []
   nodes : ∀ l ∈ ls, ∀ x ∈ l.2, x ∈ a.nodes
-  unrel : UnrelMap ls
+  cross : crossUnrelated ls = true
   nodup : nodupC (ls.map (·.1)) = true
   subj : ls.any (·.1 == r.subject) = true
   objNe : r.anything = false → r.objects ≠ []
   obj : r.anything = false → ∀ on ∈ r.objects, ls.any (·.1 == on) = true ∧ on ≠ r.subject
 
-theorem ldom_of_layerDomain (a : Arch) (ls : Layers) (r : LRuleSpec) (h : layerDomain a ls r = true) : LDom a ls r := by
-  unfold layerDomain at h
+theorem ldom'_of_layerDomain' (a : Arch) (ls : Layers) (r : LRuleSpec) (h : layerDomain' a ls r = true) :
+    LDom' a ls r := by
+  unfold layerDomain' at h
   simp only [Bool.and_eq_true, List.all_eq_true, Bool.not_eq_true', List.contains_iff_mem, Bool.or_eq_true,
     bne_iff_ne, ne_eq] at h
   obtain ⟨⟨⟨⟨⟨h1, h2⟩, h3⟩, h4⟩, h5⟩, h6⟩ := h
-  refine ⟨?_, ?_, unrelMap_of_pairwise ls h3, h4, h5, ?_, ?_⟩
+  refine ⟨?_, ?_, h3, h4, h5, ?_, ?_⟩
   · intro l hl h0
     have := h1 l hl
     rw [h0] at this; cases this
@@ -127,7 +234,72 @@ theorem ldom_of_layerDomain (a : Arch) (ls : Layers) (r : LRuleSpec) (h : layerD
   · intro hany on hon
     rcases h6 with h6 | h6
     · rw [hany] at h6; cases h6
-    · exact h6.1.2 on hon
+    · exact h6.2 on hon
+
+/-- the old domain is contained in the relaxed one -/
+theorem layerDomain'_of_layerDomain (a : Arch) (ls : Layers) (r : LRuleSpec) (h : layerDomain a ls r = true) :
+    layerDomain' a ls r = true := by
+  unfold layerDomain at h
+  unfold layerDomain'
+  simp only [Bool.and_eq_true, Bool.or_eq_true] at h ⊢
+  obtain ⟨⟨⟨⟨⟨h1, h2⟩, h3⟩, h4⟩, h5⟩, h6⟩ := h
+  refine ⟨⟨⟨⟨⟨h1, h2⟩, cross_of_pairwiseUnrelated ls h3⟩, h4⟩, h5⟩, ?_⟩
+  rcases h6 with h6 | h6
+  · exact .inl h6
+  · exact .inr h6.1
+
+/-- the relaxed domain is contained in the domain of the core lemma -/
+theorem ldom_of_ldom' {a : Arch} {ls : Layers} {r : LRuleSpec} (hw : ArchWF a) (h : LDom' a ls r) : LDom a ls r := by
+  have hnodesGet : ∀ n x, x ∈ ls.get n → x ∈ a.nodes := by
+    intro n x hx
+    obtain ⟨l, hl, _, hxl⟩ := mem_of_mem_get ls n x hx
+    exact h.nodes l hl x hxl
+  refine ⟨fun l hl x hx => hw.nwf x (h.nodes l hl x hx), hnodesGet _, fun _ on _ => hnodesGet on,
+    unrelMap_of_cross ls h.cross, h.nodup, h.subj, ?_, h.objNe, ?_⟩
+  · obtain ⟨l, hl, _, h2⟩ := get_of_any ls r.subject h.subj
+    rw [h2]; exact h.ne l hl
+  · intro hany on hon
+    obtain ⟨h1, h2⟩ := h.obj hany on hon
+    obtain ⟨l, hl, _, h3⟩ := get_of_any ls on h1
+    exact ⟨h1, h2, by rw [h3]; exact h.ne l hl⟩
+
+theorem layerDomainK_of_layerDomain' (a : Arch) (hwf : a.wf = true) (ls : Layers) (r : LRuleSpec)
+    (h : layerDomain' a ls r = true) : layerDomainK a ls r = true := by
+  have hw := archWF_of_wf a hwf
+  have hd' := ldom'_of_layerDomain' a ls r h
+  have hd := ldom_of_ldom' hw hd'
+  unfold layerDomain' at h
+  unfold layerDomainK
+  simp only [Bool.and_eq_true, Bool.or_eq_true] at h ⊢
+  obtain ⟨⟨⟨⟨⟨_, h2⟩, h3⟩, h4⟩, h5⟩, h6⟩ := h
+  have hne : ∀ n, Layers.get ls n ≠ [] → (!(Layers.get ls n).isEmpty) = true := by
+    intro n hn
+    cases hh : Layers.get ls n
+    · exact absurd hh hn
+    · rfl
+  have hwfAll : (ls.flatMap (·.2)).all nameWF = true := by
+    rw [List.all_eq_true]
+    intro x hx
+    obtain ⟨l, hl, hxl⟩ := List.mem_flatMap.1 hx
+    exact hd.wf l hl x hxl
+  have hex : ∀ n, (Layers.get ls n).all a.nodes.contains = true := by
+    intro n
+    rw [List.all_eq_true]
+    intro x hx
+    obtain ⟨l, hl, _, hxl⟩ := mem_of_mem_get ls n x hx
+    exact List.contains_iff_mem.2 (hd'.nodes l hl x hxl)
+  refine ⟨⟨⟨⟨⟨⟨hwfAll, h3⟩, h4⟩, h5⟩, hne _ hd.subjNe⟩, hex _⟩, ?_⟩
+  rcases h6 with h6 | h6
+  · exact .inl h6
+  · right
+    refine ⟨h6.1, ?_⟩
+    rw [List.all_eq_true] at h6 ⊢
+    intro on hon
+    have h7 := h6.2 on hon
+    rw [Bool.and_eq_true] at h7
+    obtain ⟨l, hl, _, h8⟩ := get_of_any ls on h7.1
+    simp only [Bool.and_eq_true]
+    exact ⟨⟨h7, hne on (by rw [h8]; exact hd'.ne l hl)⟩, hex on⟩
 
 /-- the tag of a mapping `lsM` that keeps or empties the layers of `ls`, on a layer it keeps -/
 theorem tag_iff (lsM ls : Layers) (hU : UnrelMap lsM)
@@ -148,6 +320,10 @@ theorem tag_iff (lsM ls : Layers) (hU : UnrelMap lsM)
     exact layerTag_of_mem hU hlM h
 
 /-! ### layered architectures that list modules by name -/
+
+def nmF (x : Name) : Filter := .name (render x)
+
+theorem nmF_eq (x : Name) : nmF x = compileFilter (.named x) := rfl
 
 theorem compileLArch_getD (ls : Layers) (n : List Char) :
     (compileLArch ls).getD n = ((ls.get n).map SFilter.named).map compileFilter := by
@@ -181,43 +357,84 @@ theorem filter_isRegex_compile (fs : List SFilter) : (fs.map compileFilter).filt
   obtain ⟨f, _, rfl⟩ := List.mem_map.1 hF
   simp
 
+/-! ### listed modules that are not sub modules of other listed modules -/
+
+/-- `dedupSubjects` on component lists -/
+def minimals (l : List Name) : List Name := l.filter fun m => !(l.any fun o => sdesc o m)
+
+theorem minimals_sub {l : List Name} {x : Name} (h : x ∈ minimals l) : x ∈ l := (List.mem_filter.1 h).1
+
+theorem minimals_cover (l : List Name) : ∀ k, ∀ x ∈ l, x.length ≤ k → ∃ m ∈ minimals l, m <+: x := by
+  intro k
+  induction k with
+  | zero =>
+    intro x hx hk
+    refine ⟨x, List.mem_filter.2 ⟨hx, ?_⟩, List.prefix_refl _⟩
+    simp only [Bool.not_eq_true', List.any_eq_false]
+    intro o _ hsd
+    have := (sdesc_iff o x).1 hsd
+    have hl := this.1.length_le
+    exact this.2 (this.1.eq_of_length (by omega))
+  | succ k ih =>
+    intro x hx hk
+    by_cases hmin : (l.any fun o => sdesc o x) = true
+    · obtain ⟨o, ho, hsd⟩ := List.any_eq_true.1 hmin
+      have hp := (sdesc_iff o x).1 hsd
+      have hlt : o.length ≤ k := by
+        have h1 := hp.1.length_le
+        rcases Nat.lt_or_ge o.length x.length with h | h
+        · omega
+        · exact absurd (hp.1.eq_of_length (by omega)) hp.2
+      obtain ⟨m, hm, hmo⟩ := ih o ho hlt
+      exact ⟨m, hm, hmo.trans hp.1⟩
+    · exact ⟨x, List.mem_filter.2 ⟨hx, by simpa using hmin⟩, List.prefix_refl _⟩
+
+theorem inLayer_minimals (l : List Name) (n : Name) : inLayer (minimals l) n = inLayer l n := by
+  rw [Bool.eq_iff_iff, inLayer_iff, inLayer_iff]
+  constructor
+  · rintro ⟨x, hx, hp⟩; exact ⟨x, minimals_sub hx, hp⟩
+  · rintro ⟨x, hx, hp⟩
+    obtain ⟨m, hm, hmx⟩ := minimals_cover l x.length x hx (Nat.le_refl _)
+    exact ⟨m, hm, hmx.trans hp⟩
+
+theorem dedupSubjects_names (l : List Name) (hwf : ∀ x ∈ l, nameWF x = true) :
+    dedupSubjects (l.map nmF) = (minimals l).map nmF := by
+  unfold dedupSubjects minimals
+  rw [List.filter_map]
+  congr 1
+  apply List.filter_congr
+  intro m hm
+  simp only [Function.comp_def, List.any_map, nmF, Filter.id]
+  congr 1
+  apply any_congr_mem
+  intro o ho
+  exact isStrictSub_render o m (hwf o ho) (hwf m hm)
+
+/-! ### the context of the core lemma on layers that are listed as they are -/
+
 /-- the modules queried for the objects of a layer rule on name layers -/
 def objMods (ls : Layers) (r : LRuleSpec) : List Name :=
   if r.anything = true then ls.get r.subject else r.objects.flatMap ls.get
 
-theorem lctx_names {a : Arch} {ls : Layers} {r : LRuleSpec} (hw : ArchWF a) (hd : LDom a ls r) :
-    LCtx a ls r (ls.map fun l => (l.1, l.2.map render)) (ls.get r.subject) (objMods ls r) (layerTag ls) := by
-  have hnodesGet : ∀ n x, x ∈ ls.get n → x ∈ a.nodes := by
-    intro n x hx
-    obtain ⟨l, hl, _, hxl⟩ := mem_of_mem_get ls n x hx
-    exact hd.nodes l hl x hxl
-  have hlisted : ∀ n x, x ∈ ls.get n → ∃ l ∈ ls, x ∈ l.2 := by
-    intro n x hx
-    obtain ⟨l, hl, _, hxl⟩ := mem_of_mem_get ls n x hx
-    exact ⟨l, hl, hxl⟩
-  have hobjM : ∀ x ∈ objMods ls r, ∃ n, x ∈ ls.get n := by
-    intro x hx
-    unfold objMods at hx
-    split at hx
-    · exact ⟨_, hx⟩
-    · obtain ⟨on, _, h⟩ := List.mem_flatMap.1 hx
-      exact ⟨on, h⟩
-  have hall : ∀ x ∈ ls.get r.subject ++ objMods ls r, ∃ n, x ∈ ls.get n := by
-    intro x hx
-    rcases List.mem_append.1 hx with h | h
-    · exact ⟨_, h⟩
-    · exact hobjM x h
+/-- the core context for a layer mapping that lists the layers `ls` as they are, for ANY lists `S`, `O` of queried
+    modules that generate the subject layer / make up the object layers -/
+theorem lctx_core {a : Arch} {ls : Layers} {r : LRuleSpec} (hw : ArchWF a) (hd : LDom a ls r) (S O : List Name)
+    (hinS : ∀ n, inLayer S n = inLayer (ls.get r.subject) n) (hsubS : ∀ x ∈ S, x ∈ ls.get r.subject)
+    (hmemO : ∀ x, x ∈ O ↔ if r.anything = true then x ∈ S else ∃ on ∈ r.objects, x ∈ ls.get on) :
+    LCtx a ls r (ls.map fun l => (l.1, l.2.map render)) S O (layerTag ls) := by
   obtain ⟨lS, hlS, hlS1, hlS2⟩ := get_of_any ls r.subject hd.subj
-  have hsne : ls.get r.subject ≠ [] := by rw [hlS2]; exact hd.ne lS hlS
-  have hobjne : r.anything = false → ∀ on ∈ r.objects, ls.get on ≠ [] := by
-    intro hany on hon
-    obtain ⟨l, hl, _, h2⟩ := get_of_any ls on (hd.obj hany on hon).1
-    rw [h2]; exact hd.ne l hl
   have hsubId : ∀ l' ∈ ls, ∃ l ∈ ls, l.1 = l'.1 ∧ (l'.2 = l.2 ∨ l'.2 = []) := fun l' hl' => ⟨l', hl', rfl, .inl rfl⟩
-  refine ⟨?_, ?_, ?_, ?_, fun _ => Iff.rfl, ?_, ?_, ?_, hsne, ?_, hobjne, ?_,
-    consistent_of_unrelMap ls hd.unrel (fun l hl x hx => hw.nwf x (hd.nodes l hl x hx))⟩
+  have hsne : S ≠ [] := by
+    obtain ⟨x, hx⟩ := List.exists_mem_of_ne_nil _ hd.subjNe
+    have := hinS x
+    rw [inLayer_self _ _ hx] at this
+    intro h0
+    rw [h0] at this
+    simp [inLayer] at this
+  refine ⟨?_, ?_, ?_, ?_, hinS, hmemO, ?_, hsne, ?_, fun hany on hon => (hd.obj hany on hon).2.2, ?_,
+    consistent_of_unrelMap ls hd.unrel hd.wf⟩
   · intro n hn
-    exact layerOf_correct ls hd.unrel (fun l hl x hx => hw.nwf x (hd.nodes l hl x hx)) n (hw.nwf n hn)
+    exact layerOf_correct ls hd.unrel hd.wf n (hw.nwf n hn)
   · intro n
     rw [← hlS1]
     exact tag_iff ls ls hd.unrel hsubId hd.nodup lS hlS hlS n
@@ -228,103 +445,26 @@ theorem lctx_names {a : Arch} {ls : Layers} {r : LRuleSpec} (hw : ArchWF a) (hd 
   · intro hany on hon
     obtain ⟨l, hl, h1, _⟩ := get_of_any ls on (hd.obj hany on hon).1
     exact ⟨(l.1, l.2.map render), List.mem_map.2 ⟨l, hl, rfl⟩, h1⟩
-  · intro x
-    unfold objMods
-    split
-    · exact Iff.rfl
-    · simp only [List.mem_flatMap]
   · intro x hx
-    obtain ⟨n, hn⟩ := hall x hx
-    exact hnodesGet n x hn
-  · intro x hx y hy
-    obtain ⟨n1, hn1⟩ := hall x hx
-    obtain ⟨n2, hn2⟩ := hall y hy
-    obtain ⟨l1, hl1, hx1⟩ := hlisted n1 x hn1
-    obtain ⟨l2, hl2, hy2⟩ := hlisted n2 y hn2
-    cases hr : related x y
-    · exact .inr rfl
-    · exact .inl (hd.unrel l1 hl1 l2 hl2 x hx1 y hy2 hr).1
-  · unfold objMods
-    split
-    · exact hsne
-    · rename_i hany
-      have hany' : r.anything = false := by simpa using hany
-      obtain ⟨on, hon⟩ := List.exists_mem_of_ne_nil _ (hd.objNe hany')
-      obtain ⟨y, hy⟩ := List.exists_mem_of_ne_nil _ (hobjne hany' on hon)
+    rcases List.mem_append.1 hx with h | h
+    · exact hd.nodesS x (hsubS x h)
+    · have := (hmemO x).1 h
+      split at this
+      · exact hd.nodesS x (hsubS x this)
+      · rename_i hany
+        obtain ⟨on, hon, hxo⟩ := this
+        exact hd.nodesO (by simpa using hany) on hon x hxo
+  · cases hany : r.anything
+    · obtain ⟨on, hon⟩ := List.exists_mem_of_ne_nil _ (hd.objNe hany)
+      obtain ⟨y, hy⟩ := List.exists_mem_of_ne_nil _ (hd.obj hany on hon).2.2
       intro h0
-      have : y ∈ r.objects.flatMap ls.get := List.mem_flatMap.2 ⟨on, hon, hy⟩
+      have : y ∈ O := (hmemO y).2 (by simp only [hany, Bool.false_eq_true, if_false]; exact ⟨on, hon, hy⟩)
+      rw [h0] at this; cases this
+    · obtain ⟨x, hx⟩ := List.exists_mem_of_ne_nil _ hsne
+      intro h0
+      have : x ∈ O := (hmemO x).2 (by simp only [hany, if_true]; exact hx)
       rw [h0] at this; cases this
   · intro hany hmem
-    exact (hd.obj hany _ hmem).2 rfl
-
-/-- on name layers, `assert_applies` is the tail of `matchLayerRule` on the listed modules -/
-theorem layer_reduce_names (mt : Str → Str → Bool) (a : Arch) (g : PGraph Str)
-    (hwf : a.wf = true) (ls : Layers) (r : LRuleSpec) (hdom : layerDomain a ls r = true)
-    (hany : r.anything = true → r.verb = .shouldNot) :
-    assertAppliesLayer mt (compileLayerRule (compileLArch ls) r) g =
-      matchTail g (ls.map fun l => (l.1, l.2.map render)) (behL r) r.importDir
-        (((ls.get r.subject).map SFilter.named).map compileFilter) (((objMods ls r).map SFilter.named).map compileFilter) := by
-  have hw := archWF_of_wf a hwf
-  have hd := ldom_of_layerDomain a ls r hdom
-  have c := lctx_names hw hd
-  have hS : (compileLArch ls).getD r.subject = ((ls.get r.subject).map SFilter.named).map compileFilter :=
-    compileLArch_getD ls r.subject
-  have hOf : r.objects.flatMap (compileLArch ls).getD = ((r.objects.flatMap ls.get).map SFilter.named).map compileFilter := by
-    simp only [List.map_flatMap]
-    congr 1
-    funext n
-    exact compileLArch_getD ls n
-  have hobjs : (if r.anything = true then (compileLArch ls).getD r.subject else r.objects.flatMap (compileLArch ls).getD) =
-      ((objMods ls r).map SFilter.named).map compileFilter := by
-    unfold objMods
-    split
-    · exact hS
-    · exact hOf
-  have hsne : (compileLArch ls).getD r.subject ≠ [] := by
-    rw [hS]; simpa using c.sne
-  rw [assertAppliesLayer_compile mt g _ r hsne ?_ hany ?_]
-  · rw [hobjs, hS]
-    rw [matchLayerRule_eq mt g _ _ _ _ _ _ _ (convertFilters_map mt g.nodes _) (convertFilters_map mt g.nodes _)
-      (by rw [updateLayerMap_names]; exact c.cons)]
-    rw [updateLayerMap_names]
-  · cases h : r.anything
-    · right
-      have := c.one
-      rw [hOf]
-      unfold objMods at this
-      simpa [h] using this
-    · exact .inl rfl
-  · intro _
-    rw [hS]
-    apply dedupSubjects_strict hw
-    · intro f hf
-      obtain ⟨x, hx, rfl⟩ := List.mem_map.1 hf
-      exact c.nodes x (List.mem_append_left _ hx)
-    · intro f hf f' hf'
-      obtain ⟨x, hx, rfl⟩ := List.mem_map.1 hf
-      obtain ⟨y, hy, rfl⟩ := List.mem_map.1 hf'
-      rcases c.unrel x (List.mem_append_left _ hx) y (List.mem_append_left _ hy) with rfl | h
-      · exact .inl rfl
-      · exact .inr h
-
-/-- C05 on name layers -/
-theorem layer_verdict_names_lemma (mt : Str → Str → Bool) (a : Arch) (g : PGraph Str) (hg : GraphOf a g)
-    (hwf : a.wf = true) (ls : Layers) (r : LRuleSpec) (hdom : layerDomain a ls r = true)
-    (hany : r.anything = true → r.verb = .shouldNot) :
-    (assertAppliesLayer mt (compileLayerRule (compileLArch ls) r) g).cls = VClass.ofBool (layerVerdict a ls r) := by
-  have hw := archWF_of_wf a hwf
-  rw [layer_reduce_names mt a g hwf ls r hdom hany]
-  exact matchTail_verdict (lctx_names hw (ldom_of_layerDomain a ls r hdom)) hw hg hany
-
-/-- soundness of the report on name layers: reported imports are imports between different layers -/
-theorem layer_report_sound_names_lemma (mt : Str → Str → Bool) (a : Arch) (g : PGraph Str) (hg : GraphOf a g)
-    (hwf : a.wf = true) (ls : Layers) (r : LRuleSpec) (hdom : layerDomain a ls r = true)
-    (hany : r.anything = true → r.verb = .shouldNot) (items : List LItem)
-    (h : assertAppliesLayer mt (compileLayerRule (compileLArch ls) r) g = .fail items) :
-    ∀ u v b tu tv, LItem.imp u v b tu tv ∈ items →
-      ∃ e ∈ a.imports, u = render e.1 ∧ v = render e.2 ∧ tu = layerTag ls e.1 ∧ tv = layerTag ls e.2 ∧ tu ≠ tv := by
-  have hw := archWF_of_wf a hwf
-  rw [layer_reduce_names mt a g hwf ls r hdom hany] at h
-  exact matchTail_sound (lctx_names hw (ldom_of_layerDomain a ls r hdom)) hw hg items h
+    exact (hd.obj hany _ hmem).2.1 rfl
 
 end Pta
